@@ -172,9 +172,24 @@ def cases_for(rng, n, ctx):
         elif op == 'cmatmul':
             nf = int(rng.integers(2, 4))
             mats = [cobs_matrix(rng, pool, values_matrix(rng, m), values_matrix(rng, m)) for _ in range(nf)]
+            mixed = int(i // len(ops)) % 3
+            if mixed == 1:
+                # a complex product may contain real factors, and its factors plain (real or complex) numbers - anywhere, the first entry included
+                k = int(rng.integers(0, nf))
+                mats[k] = obs_matrix(rng, pool, values_matrix(rng, m), plain_frac=0.3)
+                if rng.random() < 0.5:
+                    mats[k][0, 0] = float(np.round(rng.uniform(0.5, 1.5), 2))
+            elif mixed == 2:
+                k = int(rng.integers(0, nf))
+                for _ in range(int(rng.integers(1, 3))):
+                    a, b = (0, 0) if rng.random() < 0.5 else (int(rng.integers(0, m)), int(rng.integers(0, m)))
+                    if m > 1 or nf > 1:
+                        mats[k][a, b] = complex(float(np.round(rng.uniform(0.5, 1.5), 2)), float(np.round(rng.uniform(-1, 1), 2))) if rng.random() < 0.6 else 0.75
+                if all(not isinstance(x[0, 0], pe.CObs) for x in mats):
+                    mats[(k + 1) % nf] = cobs_matrix(rng, pool, values_matrix(rng, m), values_matrix(rng, m))
             r = _call(lambda: pe.linalg.matmul(*mats))
             res = {'k': 'exc', 't': type(r).__name__} if isinstance(r, Exception) else {'k': 'ok', 'm': pcm(r, pool)}
-            cases.append({'id': cid, 'ev': 'matmul', 'complex': True, 'ops': [pcm(x, pool) for x in mats], 'res': res})
+            cases.append({'id': cid + ['', '-realfactor', '-plainentries'][mixed], 'ev': 'matmul', 'complex': True, 'ops': [pcm(x, pool) for x in mats], 'res': res})
         elif op == 'inv':
             A = obs_matrix(rng, pool, values_matrix(rng, m), plain_frac=0.0)
             r = _call(lambda: pe.linalg.inv(A))
